@@ -538,7 +538,7 @@ func Gen(run *vlib.Run, seed uint64, tier string) {
 	// (0) keepFunc.Keep against the model's keepf, all flag choices x GDEF shapes
 	{
 		r := root.Fork("keep")
-		n := vlib.Count(tier, 150, 3000)
+		n := vlib.Count(tier, 400, 4000)
 		for i := 0; i < n; i++ {
 			gd := genGdef(r)
 			flags := vlib.Pick(r, flagChoices)
@@ -558,7 +558,7 @@ func Gen(run *vlib.Run, seed uint64, tier string) {
 		r := root.Fork("catalogue")
 		small := []int{1, 2, 10, 20}
 		maxLen := vlib.Count(tier, 3, 4)
-		tables := vlib.Count(tier, 2, 12)
+		tables := vlib.Count(tier, 4, 14)
 		var seqs [][]int
 		var rec func(prefix []int)
 		rec = func(prefix []int) {
@@ -618,7 +618,7 @@ func Gen(run *vlib.Run, seed uint64, tier string) {
 	// (2) random lookup lists of simple subtables, long sequences
 	{
 		r := root.Fork("simple")
-		n := vlib.Count(tier, 400, 12000)
+		n := vlib.Count(tier, 1500, 20000)
 		for i := 0; i < n; i++ {
 			t := &tgen{r: r, alpha: alphabet(), wild: r.Chance(1, 3)}
 			t.nLk = r.Range(1, 4)
@@ -644,7 +644,7 @@ func Gen(run *vlib.Run, seed uint64, tier string) {
 	// (self-referential, deeply nested, more actions than the budget)
 	{
 		r := root.Fork("nested")
-		n := vlib.Count(tier, 1200, 40000)
+		n := vlib.Count(tier, 5000, 60000)
 		for i := 0; i < n; i++ {
 			t := &tgen{r: r, alpha: alphabet(), wild: r.Chance(1, 3)}
 			if r.Chance(1, 3) {
@@ -660,7 +660,11 @@ func Gen(run *vlib.Run, seed uint64, tier string) {
 				c.LL = append(c.LL, t.lookup(kinds, 3))
 			}
 			c.Lookups = t.lookupOrder(t.nLk)
-			c.Hist = t.history(10)
+			maxLen := 10
+			if r.Chance(1, 25) {
+				maxLen = 60
+			}
+			c.Hist = t.history(maxLen)
 			emit(run, c, "stream:nested")
 		}
 	}
@@ -669,7 +673,7 @@ func Gen(run *vlib.Run, seed uint64, tier string) {
 	// including on the panics)
 	{
 		r := root.Fork("bad")
-		n := vlib.Count(tier, 200, 4000)
+		n := vlib.Count(tier, 600, 6000)
 		for i := 0; i < n; i++ {
 			t := &tgen{r: r, alpha: []int{1, 2, 10, 20, 30}, wild: true, bad: true}
 			t.nLk = r.Range(1, 3)
@@ -840,7 +844,7 @@ func encodeInfoNoRecover(c *Case) (data []byte, tp string, ok bool) {
 }
 
 func genRead(run *vlib.Run, r *vlib.Rand, tier string) {
-	n := vlib.Count(tier, 250, 6000)
+	n := vlib.Count(tier, 700, 8000)
 	valid, accepted, rejected, modelled := 0, 0, 0, 0
 	for i := 0; i < n; i++ {
 		t := &tgen{r: r, alpha: []int{1, 2, 3, 10, 11, 20}, wild: r.Chance(1, 2), sortCov: true}
